@@ -9,11 +9,20 @@ Notation rq := (Inb.rq reqs).
 Notation exists_b := (Inb.exists_b reqs).
 Notation Inv := (Inv reqs).
 
-Lemma inv_finish_ok s i w k :
+Lemma inv_work_done s i w k :
   Inv s -> exists_b i = true -> a_pc (act s i) = PWork -> w = ans_of_kind k ->
-  (k = KCan -> a_cancel (act s i) = true) -> Inv (finish_ok reqs s i w k).
+  (k = KCan -> a_cancel (act s i) = true) -> Inv (work_done reqs s i w k).
 Proof.
-  intros HI He Hpc Hw Hk. unfold finish_ok.
+  intros HI He Hpc Hw Hk. unfold work_done. subst w.
+  destruct (a_ref (act s i)) as [j|] eqn:Hr.
+  - own HI j i. solve_inv HI.
+  - solve_inv HI.
+Qed.
+
+Lemma inv_crashed s i :
+  Inv s -> exists_b i = true -> a_pc (act s i) = PWork -> Inv (crashed fixed s i APanic).
+Proof.
+  intros HI He Hpc. unfold crashed, crash_pc. cbn [fix_c fixed].
   destruct (a_ref (act s i)) as [j|] eqn:Hr.
   - own HI j i. solve_inv HI.
   - solve_inv HI.
@@ -35,16 +44,17 @@ Proof.
 Qed.
 
 Lemma inv_ans s i w s' :
-  Inv s -> exists_b i = true -> ans reqs s i w = Some s' -> Inv s'.
+  Inv s -> exists_b i = true -> ans fixed reqs s i w = Some s' -> Inv s'.
 Proof.
   intros HI He Hs. unfold ans in Hs.
   destruct (a_pc (act s i)) eqn:Hpc; try discriminate.
   destruct w.
-  - start Hs. apply inv_finish_ok; auto. discriminate.
-  - start Hs. apply inv_finish_ok; auto. discriminate.
-  - destruct (a_cancel (act s i)) eqn:Hc; [|discriminate]. start Hs. apply inv_finish_ok; auto.
+  - start Hs. apply inv_work_done; auto. discriminate.
+  - start Hs. apply inv_work_done; auto. discriminate.
+  - destruct (a_cancel (act s i)) eqn:Hc; [|discriminate]. start Hs. apply inv_work_done; auto.
   - start Hs. apply inv_finish_err; auto.
   - destruct (a_cancel (act s i)) eqn:Hc; [|discriminate]. start Hs. apply inv_finish_err; auto.
+  - start Hs. apply inv_crashed; auto.
 Qed.
 
 Lemma inv_cancel s i :
